@@ -5,8 +5,6 @@ From Coq Require Import Lia Arith Sorted.
 From Verif Require Import Base.Prelude Model.Diff
      Proofs.DiffBase Proofs.DiffA Proofs.DiffA2 Proofs.DiffA3.
 
-Definition identity_matching (n : nat) : list (nat * nat) := map (fun i => (i, i)) (seq 0 n).
-
 Definition eqsides (ins : list bytes) (r : region) : Prop :=
   forall i j, i < length ins -> j < length ins -> nth i ins [] = nth j ins [] ->
               nth i r (0, 0) = nth j r (0, 0).
